@@ -13,6 +13,8 @@ import (
 	"sort"
 	"strings"
 	"sync"
+	"sync/atomic"
+	"time"
 )
 
 // Prop describes one property check.
@@ -33,6 +35,8 @@ type Prop struct {
 	// MaxProcs caps the number of worker processes (0 = number of CPUs); race/concurrency properties
 	// that need the cores inside one process use a small number.
 	MaxProcs int
+	// StallSeconds > 0 enables Ctx.Checkpoint (input written to disk before each call) and the stall monitor.
+	StallSeconds int
 	// WorkerSetup runs once in each worker before the first case.
 	WorkerSetup func(tier string)
 }
@@ -97,6 +101,7 @@ type Ctx struct {
 	desc    any
 	trace   []string
 	nvio    int
+	ckpt    *os.File
 }
 
 func CaseSeed(seed int64, id string, idx int) int64 {
@@ -205,6 +210,22 @@ func (c *Ctx) Violate(sig, format string, a ...any) {
 	c.res.Violations = append(c.res.Violations, &Violation{Property: c.Prop.ID, Tier: c.Tier, Seed: c.Seed, Idx: c.Idx, Signature: sig, Witness: w, Case: desc, Kind: kind})
 }
 
+// Checkpoint writes the input that is about to be handed to the code under test to disk (one slot per worker), so
+// that the driver can name it if the process dies or stalls inside the call. Progress is counted for the stall monitor.
+func (c *Ctx) Checkpoint(label string, data []byte) {
+	atomic.AddInt64(&progress, 1)
+	if c.ckpt == nil {
+		return
+	}
+	hdr := fmt.Sprintf("%-40s %10d\n", label, len(data))
+	buf := make([]byte, 0, len(hdr)+len(data))
+	buf = append(buf, hdr...)
+	buf = append(buf, data...)
+	c.ckpt.WriteAt(buf, 0)
+}
+
+var progress int64
+
 // Violated reports whether this case already recorded a violation.
 func (c *Ctx) Violated() bool { return c.nvio > 0 }
 
@@ -267,6 +288,23 @@ func Worker(p *Prop, tier string, seed int64, shard, nshards int, skip map[int]b
 	if p.WorkerSetup != nil {
 		p.WorkerSetup(tier)
 	}
+	var ckpt *os.File
+	if p.StallSeconds > 0 {
+		ckpt, _ = os.OpenFile(outPrefix+".input", os.O_CREATE|os.O_RDWR|os.O_TRUNC, 0o644)
+		go func() { // stall monitor: a single call that does not return for StallSeconds ends the worker (exit 97)
+			last, since := int64(-1), time.Now()
+			for {
+				time.Sleep(500 * time.Millisecond)
+				cur := atomic.LoadInt64(&progress)
+				if cur != last {
+					last, since = cur, time.Now()
+				} else if cur > 0 && time.Since(since) > time.Duration(p.StallSeconds)*time.Second {
+					fmt.Fprintf(os.Stderr, "fatal error: STALL: the current call has not returned for %d seconds\n", p.StallSeconds)
+					os.Exit(97)
+				}
+			}
+		}()
+	}
 	total := p.Cases(tier)
 	buf := make([]byte, 0, 32)
 	for idx := shard; idx < total; idx += nshards {
@@ -276,7 +314,9 @@ func Worker(p *Prop, tier string, seed int64, shard, nshards int, skip map[int]b
 		buf = append(buf[:0], fmt.Sprintf("%-20d\n", idx)...)
 		cur.WriteAt(buf, 0)
 		c := newCtx(p, tier, seed, idx, res, &mu)
+		c.ckpt = ckpt
 		RunCase(c)
+		atomic.AddInt64(&progress, 1)
 		res.Cases++
 	}
 	cur.WriteAt([]byte(fmt.Sprintf("%-20d\n", -1)), 0)
